@@ -46,7 +46,7 @@ var c01 = core.Register(&core.Prop{
 	CrashIsViolation: true,
 	Floors: func(c map[string]int64, tier string) []string {
 		var out []string
-		for _, k := range []string{"accepted", "rejected", "shape_cases", "tok_exhaustive_cases", "bytes_cases", "mutant_cases"} {
+		for _, k := range []string{"accepted", "rejected", "shape_cases", "tok_exhaustive_cases", "bytes_cases", "mutant_cases", "reparse_checks"} {
 			if c[k] == 0 {
 				out = append(out, "coverage floor: no "+k+" observed")
 			}
@@ -262,6 +262,39 @@ func incomplete(e formula.Expression) string {
 	return bad
 }
 
+// StableCase: an input and the outcome of its first parse in this process.
+type StableCase struct {
+	Src   []byte `json:"src"`
+	First string `json:"first"`
+}
+
+func parseOutcome(src []byte) string {
+	var sc *formula.SourceCode
+	var err error
+	panicked, pv := core.Call(func() { sc, err = formula.ParseSourceCode(src) })
+	switch {
+	case panicked:
+		return "PANIC " + fmt.Sprint(pv)
+	case err != nil:
+		return "ERROR " + err.Error()
+	case sc == nil:
+		return "NIL"
+	}
+	return "TREE " + obs.Canon(sc.Expression)
+}
+
+var c01Stable = core.Mon(c01, "reparse-stability", func(w *core.W, c *StableCase) {
+	w.Eval(1)
+	w.Count("reparse_checks")
+	if w.Replay {
+		c.First = parseOutcome(c.Src)
+	}
+	if again := parseOutcome(c.Src); again != c.First {
+		w.Violation("reparse-stability", "C01/parse-depends-on-history", c, clipS(c.First, 300), clipS(again, 300),
+			fmt.Sprintf("parsing %q again later in the same process gives a different outcome", clipS(string(c.Src), 120)))
+	}
+})
+
 func joinToks(toks []string, policy int) []byte {
 	if policy == 0 {
 		return []byte(strings.Join(toks, " "))
@@ -270,11 +303,27 @@ func joinToks(toks []string, policy int) []byte {
 }
 
 func runC01(w *core.W) {
+	var remembered []*StableCase
+	seen := 0
+	defer func() {
+		// every remembered input once more, now that thousands of other inputs went through the parser
+		for _, c := range remembered {
+			c01Stable(w, c)
+		}
+	}()
 	run := func(genName string, src []byte, counter string) {
 		if len(src) > 65536 {
 			src = src[:65536]
 		}
 		c := &ParseCase{Src: src, Gen: genName}
+		seen++
+		if (seen < 3000 || seen%37 == 0) && len(src) <= 4096 && len(remembered) < 40000 {
+			remembered = append(remembered, &StableCase{Src: src, First: parseOutcome(src)})
+			if len(remembered)%16 == 0 {
+				// and an early repeat right away, interleaved with other inputs
+				c01Stable(w, remembered[len(remembered)-8])
+			}
+		}
 		c01Parse(w, c)
 		w.Count(counter)
 		if w.Counter(counter)%997 == 1 {
